@@ -136,7 +136,15 @@ fn make_seeds(run_seed: u64) -> Vec<SeedInfo> {
 	v.push(SeedInfo { bytes: vec![0u8; 32], is_test: false, kind: "zeros32" });
 	v.push(SeedInfo { bytes: vec![0xffu8; 32], is_test: true, kind: "ones32" });
 	v.push(SeedInfo { bytes: p.bytes(16), is_test: false, kind: "rand16" });
-	v.push(SeedInfo { bytes: p.bytes(64), is_test: false, kind: "rand64" });
+	let s64 = p.bytes(64);
+	v.push(SeedInfo { bytes: s64.clone(), is_test: false, kind: "rand64" });
+	// longer than one SHA-512 block of key material: the first 64 bytes shared with the seed above
+	let mut s65 = s64.clone();
+	s65.push(0x5a);
+	v.push(SeedInfo { bytes: s65, is_test: false, kind: "rand64_plus_one_byte" });
+	let mut s128 = s64;
+	s128.extend(p.bytes(64));
+	v.push(SeedInfo { bytes: s128, is_test: false, kind: "rand64_plus_64_bytes" });
 	v.push(SeedInfo { bytes: vec![1u8], is_test: false, kind: "one_byte" });
 	v.push(SeedInfo { bytes: s0[..31].to_vec(), is_test: true, kind: "prefix31" });
 	while v.len() < N_SEEDS {
@@ -2663,6 +2671,35 @@ fn main() {
 	run.assume("a view key 'matches' an output when it was created from the same keychain at a prefix node of the output's path and all remaining path components are non-hardened (BIP32 public derivation)");
 	run.assume("sums that are 0 mod n may be reported as Err(InvalidSecretKey) or as the zero blinding factor (documented zero handling)");
 
+	// every seed of the run is a different wallet: the key and the commitment of one fixed (amount, path) are pairwise
+	// distinct over all of them (1, 16, 31, 32, 64, 65 and 128 byte seeds, 1-bit neighbours, a shared 64-byte prefix)
+	if ctx.only.is_none() {
+		init_thread(false);
+		let id = ExtKeychain::derive_key_id(2, 1, 7, 0, 0);
+		let mut seen: HashMap<Vec<u8>, usize> = HashMap::new();
+		for (i, kc) in kcs.iter().enumerate() {
+			for sw in [SwitchCommitmentType::Regular, SwitchCommitmentType::None] {
+				if let (Ok(k), Ok(c)) = (kc.derive_key(5, &id, sw), kc.commit(5, &id, sw)) {
+					for (tag, bytes) in [("key", k.0.to_vec()), ("commit", c.0.to_vec())] {
+						let mut key = vec![tag.as_bytes()[0], sw as u8];
+						key.extend(bytes);
+						if let Some(j) = seen.insert(key, i) {
+							if j != i {
+								run.violation(
+									&format!("check=seeds_give_distinct_wallets;what={};seeds={}/{}", tag, seeds[j].kind, seeds[i].kind),
+									&format!("two different seeds ({} bytes '{}' and {} bytes '{}') derive the same {} for (5, m/1/7, {})",
+										seeds[j].bytes.len(), seeds[j].kind, seeds[i].bytes.len(), seeds[i].kind, tag, sw_name(sw)),
+									json!({"phase": "seeds", "seed_a": ctx.seed_json(j), "seed_b": ctx.seed_json(i)}),
+								);
+							}
+						}
+					}
+					run.count("S.seed_keys_and_commitments_compared", 1);
+				}
+			}
+		}
+		run.eval("S;seed_distinctness", true);
+	}
 	let t0 = Instant::now();
 	if ctx.wants("determinism") {
 		phase_a(&ctx);
